@@ -87,6 +87,36 @@ CHECKS = [
         text='Generated parameters, random variables, statements incl. compartmental systems, datainfo, execution steps, expressions and whole models must survive to_dict/from_dict and JSON; generic code must parse back to an equal model; recipes are rebuilt in 4 fresh interpreters (PYTHONHASHSEED 0,1,2,random) and must give one ModelHash; equal content built by different histories (permuted builder operations, subs/rename there and back, inverse transformations, metadata changes) must give equal keys and single-field edits different keys.',
         note='Same content = pharmpy == plus equal datasets plus to_dict equal up to mapping/graph order and 0 vs 0.0; sub-process timeouts are harness errors, never violations.',
     ),
+    dict(
+        id='C03', level='exploration',
+        technique='property-based testing + grammar-based generation: byte-exact parse/print round trip on generated, grammar-derived and mutated checked-in control streams; no-op update_source; single-edit frame preservation against an own record splitter; separate atheris fuzz script',
+        text='str(parse(T)) == T for every accepted text from five sources (generated streams with layout noise, bodies drawn from pharmpy\'s own lark grammars, parameter-record layouts, line/token mutations of the 91 checked-in streams, literal texts); reading and regenerating an unmodified model reproduces the text; after one of 16 edits every record that cannot express the edit is byte-identical and in order, comments/verbatim lines inside edited code records and untouched values inside edited parameter records keep their spelling.',
+        note='Parse refusals are counted, not flagged (the property quantifies over accepted texts). Coverage-guided fuzzing (atheris) is a separate script tools/fuzz_c03.py because instrumentation must precede the first pharmpy import; its findings replay through the pp_text sub-check.',
+    ),
+    dict(
+        id='C04', level='exploration',
+        technique='property-based testing: generated $THETA/$OMEGA/$SIGMA layouts x edit histories; write -> re-read comparison, independent reference parse of the written text, token-level spelling comparison',
+        text='Parameter records in generated layouts (repeats, bounds, FIX positions, DIAGONAL/BLOCK/SAME, SD/CORR/CHOLESKY, name comments) embedded in a minimal model go through 1-4 public-API edits; the regenerated code is re-read by pharmpy (parameters, random-variable structure, names) and parsed by the reference parser (numbers), and unchanged numbers must keep their token spelling.',
+        note='BLOCK VALUES and comma-separated omega values are excluded (unreadable: C01 findings); known low-severity spelling/name findings are only raised when nothing else is wrong with a case.',
+    ),
+    dict(
+        id='C06', level='exploration',
+        technique='property-based testing over the whole public API table: deep snapshot of the argument before/after each call, well-formedness walk of returned models, equality/hash/copy laws',
+        text='213 model-taking functions of pharmpy.modeling / tools helpers are called with arguments derived from the current model on corpus models and reachable variants that share one DataFrame object; a deep snapshot (dataset bytes, dtypes, identity, datainfo, parameters, rvs, statements, steps, code) of the argument and of a second model sharing the DataFrame must be unchanged whether the call returns or raises; returned models must be well formed (bounds, unique names, every symbol defined, code producible) and == must be consistent with hash and copy.',
+        note='Functions needing external tools/minutes are excluded with reasons (pv/api_table.py); the snapshot is taken twice before each call as a self-check.',
+    ),
+    dict(
+        id='C07', level='exploration',
+        technique='property-based testing: metamorphic relation model-function-before == model-function-after for refactorings; closed-form ODE solutions checked against the right-hand side; expression extractors/evaluators vs sequential execution and finite differences',
+        text='16 function-preserving refactorings (mu-referencing, make_declarative, cleanup, greekify, rename_symbols, generic/NONMEM conversion, dataset unload/load, remove unused, join/split, replace fixed thetas ...) on corpus models, variants and generated $PRED/ADVAN models must keep y, individual parameters and ODE right-hand sides at sampled inputs under the declared renaming; solve_ode_system must satisfy the ODE and dose initial condition; get_*_expression, gradient expressions and evaluate_* agree with sequential execution and central differences.',
+        note='Each case runs in a forked child so interpreter crashes (symengine) become findings instead of killing the shard; solve_ode restricted to <=2 states (sympy dsolve cost).',
+    ),
+    dict(
+        id='C08', level='exploration',
+        technique='property-based testing: sequences of structural feature requests (MFL alphabet + add/remove functions); detectors, idempotence, documented reversibility, totality, code generation',
+        text='Sequences of <=4 (thorough <=6) feature requests on corpus PK models: each request returns a model or a documented refusal (anything else is not-total); the detector of the requested category reports exactly the request, other category groups are unchanged except documented couplings, the dose still reaches central, no undefined symbols; f(f(m)) is function-equivalent to f(m); documented inverse pairs restore the function up to initial estimates; update_source succeeds.',
+        note='Reversibility only asserted for histories starting at basic models without extensions; couplings inside the absorption group are classified (documented/undocumented), not flagged.',
+    ),
 ]
 
 ALL = ['C%02d' % i for i in range(1, 21)]
